@@ -143,24 +143,45 @@ pub fn build_core(
     exec::call(async move {
         let storage = world::storage_of(&world).await?;
         let mut b = HypercoreBuilder::new(storage);
-        if let Some(k) = key {
-            b = b.key_pair(k);
+        // The builder's setters are independent of each other: the order in which they are called
+        // must not matter. It is derived from the arguments (so that a case replays identically)
+        // and covers all six orders over the run.
+        const ORDERS: [[u8; 3]; 6] = [[0, 1, 2], [0, 2, 1], [1, 0, 2], [1, 2, 0], [2, 0, 1], [2, 1, 0]];
+        let mut h = vec![open as u8, cache as u8];
+        if let Some(k) = &key {
+            h.extend_from_slice(k.public.as_bytes());
+            h.push(k.secret.is_some() as u8);
         }
-        if open {
-            b = b.open(true);
-        }
-        #[cfg(feature = "cache")]
-        {
-            match cache {
-                CacheMode::None => {}
-                CacheMode::Default => {
-                    b = b.node_cache_options(hypercore::CacheOptionsBuilder::new());
+        let order = ORDERS[(crate::rng::fnv(&h) % 6) as usize];
+        let mut key = key;
+        for step in order {
+            match step {
+                0 => {
+                    if let Some(k) = key.take() {
+                        b = b.key_pair(k);
+                    }
                 }
-                CacheMode::Tiny => {
-                    b = b.node_cache_options(hypercore::CacheOptionsBuilder::new().max_capacity(200));
+                1 => {
+                    if open {
+                        b = b.open(true);
+                    }
                 }
-                CacheMode::Volatile => {
-                    b = b.node_cache_options(hypercore::CacheOptionsBuilder::new().time_to_live(std::time::Duration::ZERO).max_capacity(400));
+                _ => {
+                    #[cfg(feature = "cache")]
+                    {
+                        match cache {
+                            CacheMode::None => {}
+                            CacheMode::Default => {
+                                b = b.node_cache_options(hypercore::CacheOptionsBuilder::new());
+                            }
+                            CacheMode::Tiny => {
+                                b = b.node_cache_options(hypercore::CacheOptionsBuilder::new().max_capacity(200));
+                            }
+                            CacheMode::Volatile => {
+                                b = b.node_cache_options(hypercore::CacheOptionsBuilder::new().time_to_live(std::time::Duration::ZERO).max_capacity(400));
+                            }
+                        }
+                    }
                 }
             }
         }
